@@ -28,12 +28,17 @@ Record fixes := {
   f_rollback : bool;    (* Rollback skips the row bookkeeping of a wallet that has no balance row *)
   f_import_retry : bool; (* the worker retries an import batch that failed on a missing credit instead of dropping the task *)
   f_start_reorg : bool; (* Start() lets the node's best block go through the reorg logic when there is nothing to catch up by height *)
-  f_rollback_order : bool (* Rollback tolerates a block record that lists the spender of an in-block coin before its creator *)
+  f_rollback_order : bool; (* Rollback tolerates a block record that lists the spender of an in-block coin before its creator *)
+  f_import_tipcheck : bool; (* asyncImport refuses (retry) a batch when the chain it reads is not the chain the handler is synced to *)
+  f_removable_debit : bool; (* removableTxForRemoveWallet decides from the wallet database alone, not from the node's current best chain *)
+  f_ff_check : bool (* Start() takes the sync-record fast-forward only when the stored tip is still on the node's chain *)
 }.
 Definition repaired : fixes :=
-  {| f_removable := true; f_rollback := true; f_import_retry := true; f_start_reorg := true; f_rollback_order := true |}.
+  {| f_removable := true; f_rollback := true; f_import_retry := true; f_start_reorg := true; f_rollback_order := true;
+     f_import_tipcheck := true; f_removable_debit := true; f_ff_check := true |}.
 Definition as_found : fixes :=
-  {| f_removable := false; f_rollback := false; f_import_retry := false; f_start_reorg := false; f_rollback_order := false |}.
+  {| f_removable := false; f_rollback := false; f_import_retry := false; f_start_reorg := false; f_rollback_order := false;
+     f_import_tipcheck := false; f_removable_debit := false; f_ff_check := false |}.
 
 Inductive wst := WReady | WImporting (cursor : Z) | WRemoving.
 
